@@ -240,6 +240,12 @@ func (r *recCirc) Closed(ctx context.Context, now time.Time) {
 	}
 }
 
+// recBoth is one collector object listed as a run collector and as a circuit collector.
+type recBoth struct {
+	recRun
+	recCirc
+}
+
 type recOpener struct {
 	recRun
 	recCirc
@@ -401,8 +407,18 @@ func newCircRun(p *circParams) *circRun {
 	// the user's collectors come from TWO configuration layers, as with a Manager: the first half in the explicit
 	// config, the rest from a DefaultCircuitProperties constructor (lists merge receiver-then-other, so the order is kept)
 	var layer circuit.Config
+	// every other user collector is ONE object that implements both RunMetrics and Metrics and is listed under both
+	// (a stats object that also wants the transitions): each listing hears each event once
+	both := map[int]*recBoth{}
+	for i := 0; i < p.NRun && i < p.NCirc; i += 2 {
+		who := fmt.Sprintf("(WUser %d%%nat)", i)
+		both[i] = &recBoth{recRun{h: h, who: who}, recCirc{h: h, who: who}}
+	}
 	for i := 0; i < p.NRun; i++ {
-		rc := &recRun{h: h, who: fmt.Sprintf("(WUser %d%%nat)", i)}
+		var rc circuit.RunMetrics = &recRun{h: h, who: fmt.Sprintf("(WUser %d%%nat)", i)}
+		if b := both[i]; b != nil {
+			rc = b
+		}
 		if i < (p.NRun+1)/2 {
 			cfg.Metrics.Run = append(cfg.Metrics.Run, rc)
 		} else {
@@ -418,7 +434,10 @@ func newCircRun(p *circParams) *circRun {
 		}
 	}
 	for i := 0; i < p.NCirc; i++ {
-		rc := &recCirc{h: h, who: fmt.Sprintf("(WUser %d%%nat)", i)}
+		var rc circuit.Metrics = &recCirc{h: h, who: fmt.Sprintf("(WUser %d%%nat)", i)}
+		if b := both[i]; b != nil {
+			rc = b
+		}
 		if i < (p.NCirc+1)/2 {
 			cfg.Metrics.Circuit = append(cfg.Metrics.Circuit, rc)
 		} else {
